@@ -6,6 +6,13 @@ import ZapVerif.Model.TransMultiWSX
 import ZapVerif.Model.TransZioX
 import ZapVerif.Model.TransCallerX
 import ZapVerif.Model.TransEscapeX
+import ZapVerif.Model.TransCEX
+import ZapVerif.Model.TransCEAddX
+import ZapVerif.Model.TransCoresX
+import ZapVerif.Model.TransLoggerX
+import ZapVerif.Model.TransLockedX
+import ZapVerif.Model.TransSweetenX
+import ZapVerif.Model.TransCaptureX
 import ZapVerif.Gen.TransProbe
 /-! `zvdrv CTR`: the interpreter side of the translator's differential test.  An op names a generated table and a
     function, gives arguments and receiver fields; the handler runs the GENERATED term in the GoMini interpreter
@@ -39,17 +46,126 @@ def parseEnv (j : Json) (k : String) : R Env :=
 
 /-- pseudo-field `#enabled`: the levels the wrapped core of a sampler enables (a parameter of the context) -/
 def enabledOf (flds : Env) : Int → Bool :=
-  match flds.get "#enabled" with
+  match (match flds.get "#enabled" with | some v => some v | none => flds.get "#en") with
   | some (.list ls) => fun l => ls.any fun | .int x => x == l | _ => false
   | _ => fun _ => true
 
+/-- the parameters of the core-algebra context as fixed functions of the scripted values (the same on the Go side,
+    harness/cmd/zvh/trans_cores.go): `en` = the levels listed in `#en`, `cen c l` = (id c + l) even,
+    `chk c e ce` = a leaf: the sub-core adds itself iff it enables the entry's level -/
+def coreId : Val → Int
+  | .list (.int i :: _) => i
+  | _ => 0
+
+def coresPar (e : Env) : ZapVerif.TransCores.Par :=
+  let cen : Val → Int → Bool := fun c l => (coreId c + l) % 2 == 0
+  { en := enabledOf e,
+    cen := cen,
+    chk := fun c ent ce =>
+      match ent with
+      | .list (.int l :: _) => if cen c l then ZapVerif.TransCores.addCore ce c else ce
+      | _ => ce }
+
+/-- the parameters of the logger context (harness/cmd/zvh/trans_logger.go): the core of the sugar guards is the
+    pseudo-field `#core` -/
+def loggerPar (e : Env) : ZapVerif.TransLogger.Par :=
+  let cen : Val → Int → Bool := fun c l => (coreId c + l) % 2 == 0
+  let sugarCore : Val := (e.get "#core").getD (.list [])
+  { cen := fun c l => match c with | .list [] => cen sugarCore l | _ => cen c l,
+    chk := fun c ent => match ent with
+      | .list [_, _, .int l, _] => if cen c l then some [c] else none
+      | _ => none,
+    now := fun c => c,
+    ann := fun ce _ => ce }
+
+/-- a small bufio.Writer over a sink that either takes everything or fails every write with `werrs`
+    (harness/cmd/zvh/trans_locked.go reads the same five components off the real `*bufio.Writer` and its sink):
+    `[size, buffered bytes, sink writes so far, sticky error, the sink's write error]` -/
+structure BW where
+  size : Int
+  buf : Bytes
+  writes : List Val
+  err : List Val
+  werrs : List Val
+
+def BW.ofVal : Val → BW
+  | .list [.int size, .bytes buf, .list writes, .list err, .list werrs] => ⟨size, buf, writes, err, werrs⟩
+  | _ => ⟨0, [], [], [], []⟩
+
+def BW.toVal (w : BW) : Val := .list [.int w.size, .bytes w.buf, .list w.writes, .list w.err, .list w.werrs]
+
+def BW.sinkWrite (w : BW) (p : Bytes) : BW × Nat × List Val :=
+  ({ w with writes := w.writes ++ [.bytes p] }, if w.werrs.isEmpty then p.length else 0, w.werrs)
+
+/-- `bufio.Writer.Flush` -/
+def BW.flush (w : BW) : BW × List Val :=
+  if !w.err.isEmpty then (w, w.err)
+  else if w.buf.isEmpty then (w, [])
+  else
+    let r := w.sinkWrite w.buf
+    if r.2.2.isEmpty then ({ r.1 with buf := [] }, []) else ({ r.1 with err := r.2.2 }, r.2.2)
+
+/-- `bufio.Writer.Write` -/
+def BW.write : Nat → BW → Bytes → Nat → BW × Nat × List Val
+  | 0, w, _, nn => (w, nn, w.err)
+  | f + 1, w, p, nn =>
+    if (p.length : Int) > w.size - w.buf.length ∧ w.err.isEmpty then
+      if w.buf.isEmpty then
+        let r := w.sinkWrite p
+        BW.write f { r.1 with err := r.2.2 } (p.drop r.2.1) (nn + r.2.1)
+      else
+        let n := (w.size - w.buf.length).toNat
+        BW.write f (BW.flush { w with buf := w.buf ++ p.take n }).1 (p.drop n) (nn + n)
+    else if !w.err.isEmpty then (w, nn, w.err)
+    else ({ w with buf := w.buf ++ p }, nn + p.length, [])
+
+def lockedPar : ZapVerif.TransLocked.Par :=
+  { avail := fun w => let b := BW.ofVal w; b.size - b.buf.length,
+    buffered := fun w => (BW.ofVal w).buf.length,
+    flush := fun w => let r := (BW.ofVal w).flush; (r.1.toVal, r.2),
+    bwrite := fun w p => let r := BW.write (p.length + 3) (BW.ofVal w) p 0; (r.1.toVal, r.2.1, r.2.2),
+    init := fun _ ws size =>
+      let werrs := match ws with | .list [_, .list e, _] => e | _ => []
+      BW.toVal ⟨if size = 0 then 262144 else if size < 0 then 4096 else size, [], [], [], werrs⟩ }
+
+/-- `"hide"`: names of recorded calls the Go side cannot observe (calls on a concrete `*bufio.Writer`); they are
+    dropped from the `ev` field before the comparison -/
+def hideEv (names : List Bytes) (e : Env) : Env :=
+  e.map fun (k, v) =>
+    match k == "ev", v with
+    | true, .list l => (k, .list (l.filter fun r => match r with | .list (.bytes n :: _) => !names.contains n | _ => true))
+    | _, _ => (k, v)
+
+/-- the intrinsics of the round-2 probes (harness/cmd/zvh/trans_probe.go: `probeRec.note`, `.done`, function values
+    `k ↦ fun x => k*x + 1`); arguments stay small, so no wrap-around is involved -/
+def probeExt : String → List Val → Option (List Val)
+  | "probe.note", [.int x] => some [.int (x + 1)]
+  | "probe.done", [] => some []
+  | "ProbeFn", [.int k, .int x] => some [.int (k * x + 1)]
+  | _, _ => none
+
+/-- the argument encoding of harness/cmd/zvh/trans_sweeten.go: `[0, key]` Field, `[1, id]` error, `[2, s]` string, anything
+    else another value; `cap` is not observable (any function with `cap s = 0 → s = []` gives the same results) -/
+def sweetenPar : ZapVerif.TransSweeten.Par :=
+  { asField := fun v => match v with | .list (.int 0 :: _) => some v | _ => none,
+    asErr := fun v => match v with | .list (.int 1 :: _) => some v | _ => none,
+    asStr := fun v => match v with | .list [.int 2, .bytes s] => some s | _ => none,
+    cap := fun v => match v with | .list l => l.length | _ => 0 }
+
 def tables : List (String × (Env → Ctx)) := [
-  ("TransProbe", fun _ => { ext := fun _ _ => none, funs := ZapVerif.Gen.TransProbe.funs }),
+  ("TransProbe", fun _ => { ext := probeExt, funs := ZapVerif.Gen.TransProbe.funs }),
   ("TransJsonSep", fun _ => ZapVerif.TransJsonSep.X),
   ("TransSampler", fun e => ZapVerif.TransSampler.X (enabledOf e)),
   ("TransMultiWS", fun _ => ZapVerif.TransMultiWS.X),
   ("TransCaller", fun _ => ZapVerif.TransCaller.X),
   ("TransEscape", fun _ => ZapVerif.TransEscape.X),
+  ("TransCE", fun _ => ZapVerif.TransCE.X),
+  ("TransCEAdd", fun _ => ZapVerif.TransCEAdd.X),
+  ("TransCapture", fun e => ZapVerif.TransCapture.X ⟨match e.get "#st" with | some (.list l) => l | _ => []⟩),
+  ("TransSweeten", fun _ => ZapVerif.TransSweeten.X sweetenPar),
+  ("TransLocked", fun _ => ZapVerif.TransLocked.X lockedPar),
+  ("TransLogger", fun e => ZapVerif.TransLogger.X (loggerPar e)),
+  ("TransCores", fun e => ZapVerif.TransCores.X (coresPar e)),
   ("TransZio", fun e => ZapVerif.TransZio.X (match e.get "#en" with | some (.bool b) => b | _ => true))
 ]
 
@@ -66,7 +182,10 @@ def handle (op : Json) : R Json := do
   let flds ← parseEnv op "flds"
   let X := mk flds
   match run X (natD op "fuel" 100000) f args flds with
-  | .done rs fl => return obj [("res", Json.arr (rs.map jval).toArray), ("flds", jenv fl)]
+  | .done rs fl =>
+    let hide := (arrD op "hide").toList.filterMap fun j => (j.getStr?.toOption).map fun s => s.toUTF8.toList
+    let drop := (arrD op "drop").toList.filterMap fun j => j.getStr?.toOption
+    return obj [("res", Json.arr (rs.map jval).toArray), ("flds", jenv ((hideEv hide fl).filter fun p => !drop.contains p.1))]
   | .panic p => return obj [("panic", Json.str (panicName p))]
   | .stuck w => return obj [("stuck", Json.str w)]
   | .oof => return obj [("oof", jbool true)]
